@@ -49,13 +49,14 @@ type LDAPConfig struct {
 }
 
 func (c *URLBackendConfig) UnmarshalYAML(unmarshal func(interface{}) error) error {
-	type Aux URLBackendConfig
+	// An embedded pointer is not inlined by the YAML decoder: list the
+	// other fields explicitly, or they are silently ignored.
 	aux := &struct {
-		URLStr string `yaml:"url"`
-		*Aux
-	}{
-		Aux: (*Aux)(c),
-	}
+		URLStr   string `yaml:"url"`
+		CertFile string `yaml:"cert_file"`
+		KeyFile  string `yaml:"key_file"`
+		CaFile   string `yaml:"ca_file"`
+	}{}
 
 	if err := unmarshal(aux); err != nil {
 		return err
@@ -65,6 +66,9 @@ func (c *URLBackendConfig) UnmarshalYAML(unmarshal func(interface{}) error) erro
 		return err
 	}
 	c.BaseURL = u
+	c.CertFile = aux.CertFile
+	c.KeyFile = aux.KeyFile
+	c.CaFile = aux.CaFile
 	return nil
 }
 
